@@ -97,7 +97,14 @@ class Fn:
         self.lean_name = lean_name or name
 
 
-LEAN_KEYWORDS = {"from", "end", "at", "in", "do", "then", "else", "if", "let", "have", "show", "fun", "def", "open", "new", "by", "with", "match"}
+LEAN_KEYWORDS = {"from", "end", "at", "in", "do", "then", "else", "if", "let", "have", "show", "fun", "def", "open", "new", "by", "with", "match",
+                 # further Lean 4 keywords / command names a Python local may happen to be called
+                 "partial", "theorem", "lemma", "example", "instance", "structure", "class", "inductive", "where", "namespace", "section",
+                 "variable", "universe", "mutual", "private", "protected", "unsafe", "noncomputable", "macro", "syntax", "notation",
+                 "deriving", "extends", "import", "export", "abbrev", "opaque", "axiom", "calc", "this", "Type", "Prop", "Sort", "forall",
+                 "exists", "return", "for", "unless", "mut", "try", "catch", "finally", "throw", "using", "suffices", "obtain", "set_option",
+                 "attribute", "local", "scoped", "infix", "infixl", "infixr", "prefix", "postfix", "termination_by", "decreasing_by", "nomatch",
+                 "nofun", "sorry", "true", "false"}
 
 
 def lname(n):
